@@ -1164,10 +1164,11 @@ class ManifestRecursiveLoader:
             path, verify_manifests=verify_manifests)
         entry_dict = self.get_deduplicated_file_entry_dict_for_update(
             path, verify_manifests=verify_manifests)
-        manifest_stack = []
-        for mpath, mrpath, m in (self._iter_manifests_for_path(path)):
-            manifest_stack.append((mpath, mrpath, m))
-            break
+        # seed the stack with the whole chain of Manifests applying
+        # to @path (outermost first), so that MANIFEST entries that
+        # need to go level up always find a parent Manifest
+        manifest_stack = list(reversed(
+            self._iter_manifests_for_path(path)))
         directory_ids = {}
 
         it = os.walk(os.path.join(self.root_directory, path),
